@@ -95,7 +95,9 @@ def gen_spec(rng, n):
                 continue
             spec.append({"kind": "ref", "target": tgt})
         else:
-            ms = rng.sample(structs, min(len(structs), rng.choice([0, 1, 2]))) if structs else []
+            if not structs:     # the grammar is UnionRef[{Struct|Array}+]: at least one member
+                continue
+            ms = rng.sample(structs, min(len(structs), rng.choice([1, 1, 2])))
             spec.append({"kind": "union", "members": ms}); compounds.append(i)
     # declared dependencies, forward (acyclic) or backward (may close a cycle)
     for i in structs:
@@ -105,7 +107,9 @@ def gen_spec(rng, n):
                 spec[i]["depends"] = rng.sample(cands, min(len(cands), rng.choice([1, 1, 2])))
     for i, d in enumerate(spec):
         if d["kind"] == "union" and structs and rng.random() < 0.3:
-            d["late_members"] = [rng.choice(structs)]
+            cands = [j for j in structs if j not in d["members"]]   # a union lists each member type once
+            if cands:
+                d["late_members"] = [rng.choice(cands)]
     return spec
 
 
